@@ -120,6 +120,10 @@ def cases():
     out.append(('failing post_exec', dict(post_exec=['false']), 'post-fails'))
     out.append(('exit code of the executable', dict(), 'exit-code'))
     out.append(('per-rank pre_exec', dict(pre_exec=[{'0': _trace('rank0'), '1': _trace('rank1')}, _trace('all')], ranks=2), 'per-rank'))
+    out.append(('mixed pre_exec, dict names rank 0 only, 3 ranks',
+                dict(pre_exec=[_trace('all'), {'0': _trace('rank0')}], post_exec=[_trace('post')], ranks=3), 'per-rank-partial'))
+    out.append(('failing global pre_exec next to a per-rank dict',
+                dict(pre_exec=['false', {'0': _trace('rank0')}], ranks=2), 'per-rank-fail'))
     out.append(('RP_* variables', dict(cores_per_rank=3, gpus_per_rank=2.0), 'rp-vars'))
     out.append(('RP_* variables, shared GPU', dict(cores_per_rank=1, gpus_per_rank=0.5), 'rp-vars'))
     return out
@@ -142,6 +146,21 @@ def run_case(rp, case):
                     probs.append('rank %s ran pre_exec entries %s (expected its own entry and the common one)' % (rank, tr))
                 if len(recs) != 1: probs.append('rank %s: executable ran %d times' % (rank, len(recs)))
             return '; '.join(probs) or None
+        if kind in ('per-rank-partial', 'per-rank-fail'):
+            probs = []
+            for rank in [str(r) for r in range(td['ranks'])]:
+                if os.path.exists(w.trace): os.remove(w.trace)
+                p, recs = w.run(task, rank_from_env=True, extra_env={'FAKE_RANK': rank, 'RP_TASK_SANDBOX': w.tsbox,
+                                'RP_PILOT_SANDBOX': w.psbox}, exec_only=True)
+                tr = open(w.trace).read().split() if os.path.exists(w.trace) else []
+                if kind == 'per-rank-fail':
+                    if recs: probs.append('rank %s: a global pre_exec command failed but the executable ran' % rank)
+                    if p.returncode == 0: probs.append('rank %s: a global pre_exec command failed but the script exits 0' % rank)
+                else:
+                    want = ['all'] + (['rank0'] if rank == '0' else []) + ['post']
+                    if tr != want: probs.append('rank %s ran pre / post entries %s (expected %s)' % (rank, tr, want))
+                    if len(recs) != 1: probs.append('rank %s: executable ran %d times' % (rank, len(recs)))
+            return '; '.join(probs[:3]) or None
         extra = {}
         if kind == 'exit-code': extra['PROBE_EXIT'] = '7'
         p, recs = w.run(task, extra_env=extra)
